@@ -158,6 +158,9 @@ def r3_harvested_facts(P, rep, ctx):
         x = f.xe_at(i, v)
         if isinstance(x, ast.Call):
             got = {k.arg: norm(k.value) for k in x.keywords}
+            hv = next((k.value for k in x.keywords if k.arg == "sha256"), None)
+            if hv is not None and MM.match(f"hashsum(open({PATH}, 'rb'), 'sha256')", hv) is not None:
+                got["sha256"] = f"hashsum(open({PATH}, 'rb'), 'sha256')"  # keyword / positional spelling of the same call
     rep.check(got.get("filename") == f"{PATH}.name", "C17.R3", fi.qual, "harvested file is the harvester's filepath argument", fi.loc(), construct="harvested path", message=f"harvester reads {got.get('filename')}")
     rep.check(got.get("contentSize") == f"{PATH}.stat().st_size", "C17.R3", fi.qual, "size is the file's st_size", fi.loc(), construct="contentSize source", message=f"contentSize is computed as {got.get('contentSize')}")
     rep.check(got.get("sha256") == f"hashsum(open({PATH}, 'rb'), 'sha256')", "C17.R3", fi.qual, "hash is SHA-256 over the file's bytes, read on this call", fi.loc(), construct="sha256 source", message=f"sha256 is computed as {got.get('sha256')}: not the digest of the file as it is now (e.g. memoised per path/size)")
